@@ -26,6 +26,7 @@ def main(tier, replay=None):
         return cc.run_replay(PROP, "C02", replay, cc.pattern_vec)
     res = cc.vec_pipeline(PROP, "C02", "MC_Codec_vec_%s.cfg" % tier, tier, cc.pattern_vec, sso_variants=True)
     cc.require_all_kinds(res["by_kind"])
+    cc.require_all_cells(res["cells"])
     mc = res["mc"]
     cov = {
         "states": mc["distinct"],
@@ -36,14 +37,15 @@ def main(tier, replay=None):
         "finite_tables_exhaustive": True,
         "evaluations": res["items"],
         "distinct_nontrivial": res["built"],
-        "rule": "MC_Codec (vec, %s) enumerates abstract packets: every alternative of every field once over the full length lattice "
+        "rule": "MC_Codec (vec, %s) enumerates abstract packets: fields vary over the full length lattice "
                 "{0,1,10..13,22..25,46..49,127,128,16383,16384,65535} plus payloads up to 2 MiB and Remaining Length 127/128, "
                 "16383/16384, 2097151/2097152, and %s; every reason code of every kind and every property at every allowed "
                 "location appears (finite tables: complete). Each distinct packet is one vector executed on the real builders / "
                 "parsers and judged by TLC. distinct_nontrivial = distinct vectors the real builder accepted (all clauses "
-                "evaluated)." % (tier, "all pairs of fields over the medium sets" if tier == "quick" else
+                "evaluated)." % (tier, "all pairs of fields over the full lattice" if tier == "quick" else
                                  "all pairs and all triples of fields over the full lattice"),
         "vectors_per_kind": res["by_kind"],
+        "property_cells_built": res["cells"],
         "panics_observed": res["panics"],
         "sso_feature_builds": res["sso_variants"],
         "violating_records": res["violating_records"],
